@@ -759,8 +759,11 @@ package ugo
 //@ loop 0 invariant[frames] vmFrameInv(vm)
 //@ loop 0 invariant[sp] vm.sp >= 0
 //@ uses (*errHandlers).findFinally
+//@ loop 0 step[loadmodule@C12] prev(vm.curInsts[vm.ip+1]) == byte(OpLoadModule) ==> vm.sp == prev(vm.sp)+2 && vm.ip == prev(vm.ip)+5 && specLoadModule(prev(vm.modulesCache[specOperand16(vm.curInsts, vm.ip+4)]), prev(vm.constants[specOperand16(vm.curInsts, vm.ip+2)]), vm.stack[prev(vm.sp)], vm.stack[prev(vm.sp)+1])
+//@ loop 0 step[storemodule@C12] prev(vm.curInsts[vm.ip+1]) == byte(OpStoreModule) ==> vm.sp == prev(vm.sp) && vm.ip == prev(vm.ip)+3 && vm.modulesCache[prev(specOperand16(vm.curInsts, vm.ip+2))] == vm.stack[vm.sp-1]
 //@ loop 0 panicpoint
 //@ loop 0 split byte vm.curInsts[vm.ip+1]: 0..43, other
 //@ panics vmPanicPoint(vm)
 //@ modifies *
 //@ property C06
+//@ stepproperty C12
